@@ -135,6 +135,13 @@ def symbolic_path(loop, call):
                     for name in _assigned_in(st.body) | _assigned_in(st.orelse):
                         a, b = e1.get(name, ast.Name(id=name, ctx=ast.Load())), e2.get(name, ast.Name(id=name, ctx=ast.Load()))
                         env[name] = ast.IfExp(test=test, body=a, orelse=b)
+                    # early exit: the statements after 'if c: return/continue/raise' run under 'not c'
+                    def _exits(b):
+                        return bool(b) and isinstance(b[-1], (ast.Return, ast.Continue, ast.Raise, ast.Break))
+                    if _exits(st.body) and not _exits(st.orelse):
+                        conds.append((test, False))
+                    elif _exits(st.orelse) and not _exits(st.body):
+                        conds.append((test, True))
                 else:
                     _assign_env(st, env)
                 continue
